@@ -4,6 +4,11 @@
  *   cmp  <A> <B>        O cmp s=<sign cmp(A,B)> rs=<sign cmp(B,A)> eq= neq= gt= lt= ge= le=      |  O cmp exc=<E> rexc=<E>
  *   lcmp <A> <B>        one direction only:  O lcmp s=<sign cmp(A,B)> eq= neq= gt= lt= ge= le=      |  O lcmp exc=<E>
  *   tri  <A> <B> <C>    O tri ab= ba= bc= cb= ac= ca=
+ *   cmp.n / cmp.s (likewise lcmp, tri): the ALLOCATION CLASS of every operand object of the line: plain `cmp` builds them with
+ *                       new_raw / alloc_raw; `.n` with new_root / alloc_root (collector-managed, registered as roots); `.s` gives
+ *                       Int / Float / String / Tuple / plain-struct objects the header of a `$(…)` stack object (AllocStack; the
+ *                       String's characters and the Tuple's item array lie outside the object, as for `$S("…")` / `tuple(…)`).
+ *                       The O line is the same (`cmp` does not look at the class; the model ignores the suffix).
  *   keys <v1> … <vn>    scalars of one kind set into a Tree and a Table (value = index):
  *                       O keys n= tree=<len> table=<len> order=<values in Tree iteration order> tget=<get per key> hget=<…>
  *   sort <v1> … <vn>    scalars of one kind pushed into an Array, sort(): O sort <elements>
@@ -30,10 +35,13 @@
  * The reference works on the VALUES (the parsed terms): which objects are shared must not matter.
  *
  * Known finding KF-C09-tuple-dup-obj (root cause F13): X_Cmp walks its RIGHT operand with iter_next, and Tuple_Iter_Next finds the
- * current element again by pointer identity; with one object in two slots of the right-hand Tuple the walk falls back to the
- * slot after the first occurrence.  Failures of a call whose right operand contains such a Tuple are printed with
- * sig=kf-c09-tuple-dup-obj; the generators never put such a Tuple on the right (`lcmp` exists for that: a Tuple with a repeated
- * object as the LEFT operand only).  "Contains" reaches through Arrays, Lists and Tree values: `new(Array, Tuple, x)` holds a copy
+ * current element again by pointer identity; with one object in two slots of the right-hand Tuple a step FROM the second
+ * occurrence falls back to the slot after the first.  The territory is computed here, independently of the library, by
+ * `walk_clean(obj, self)` (the same rule as `Obj.walkClean` of lean/Cello/Cmp.lean, on the reference order): the walk is clean
+ * when it is decided before it leaves a repeated slot (or `self` ends right there and `obj` does not).  Only failures of a call
+ * whose walk is NOT clean are printed with sig=kf-c09-tuple-dup-obj; a wrong answer on a clean walk — also with a repeated
+ * object in the right operand — is an ordinary violation.  The generators put such a Tuple on the right only where the walk
+ * is clean (`lcmp`: one direction).  "Contains" reaches through Arrays, Lists and Tree values: `new(Array, Tuple, x)` holds a copy
  * of `x` that references the same objects twice. */
 #include "common.h"
 #include <inttypes.h>
@@ -55,6 +63,7 @@ typedef struct V {
   struct V** el; size_t n;          /* containers: n elements; Tree: n entries = 2n elements k,v,k,v,… */
   var obj;
   int refs;                         /* `*k` hands out the same V again */
+  int cls; void* stk; var* items;   /* how `obj` was allocated (build) */
 } V;
 
 #define TN(X) { #X, &X }
@@ -184,13 +193,14 @@ static int valid(V* v) {
     case K_FLT: return !is_nan_bits(v->bits);
     case K_PLAIN: return v->tid < 4 && v->nbytes == plain_size(v->tid);
     case K_TUP:
-      for (size_t k = 0; k < v->n; k++) if (!valid(v->el[k]) || v->el[k]->kind == K_PLAIN || v->el[k]->kind == K_TYP) return 0;   /* a Type twice = the same object twice: F13 */
+      for (size_t k = 0; k < v->n; k++) if (!valid(v->el[k])) return 0;   /* anything; a Type twice = the same object twice: F13 */
       return 1;
     case K_ARR: case K_LST:
       for (size_t k = 0; k < v->n; k++) {
         if (!valid(v->el[k])) return 0;
         int ek = v->el[k]->kind;
-        if (!(ek == K_INT || ek == K_FLT || ek == K_STR || ek == K_ARR || ek == K_LST || ek == K_TUP)) return 0;
+        if (!(ek == K_INT || ek == K_FLT || ek == K_STR || ek == K_ARR || ek == K_LST || ek == K_TUP || (ek == K_PLAIN && v->el[k]->tid != 0))) return 0;
+        if (ek == K_PLAIN && v->el[k]->tid != v->el[0]->tid) return 0;       /* elements of ONE struct type */
       }
       return v->n == 0 || all_same_kind(v->el, v->n, 0, 1);
     case K_TREE:
@@ -210,6 +220,7 @@ static int is_seq(V* v) { return v->kind == K_ARR || v->kind == K_LST || v->kind
    Keys are all of one kind and values are all of one kind inside a valid Tree, so the order does not matter for this test. */
 static int comparable(V* a, V* b) {
   if (a->kind <= K_TYP && a->kind == b->kind) return 1;
+  if (a->kind == K_PLAIN && b->kind == K_PLAIN) return a->tid == b->tid && plain_size(a->tid) != 0;     /* the memcmp arm of cmp */
   if (is_seq(a) && is_seq(b)) {
     for (size_t k = 0; k < a->n && k < b->n; k++) if (!comparable(a->el[k], b->el[k])) return 0;
     return 1;
@@ -221,10 +232,13 @@ static int comparable(V* a, V* b) {
   return 0;
 }
 
+/* the same OBJECT: the same term instance (`*k`), or the same Type (there is one object per Type) */
+static int same_obj(V* x, V* y) { return x == y || (x->kind == K_TYP && y->kind == K_TYP && x->type == y->type); }
+
 /* one object in two slots of this Tuple itself */
 static int has_dup_top(V* v) {
   if (v->kind != K_TUP) return 0;
-  for (size_t i = 0; i < v->n; i++) for (size_t j = i + 1; j < v->n; j++) if (v->el[i] == v->el[j]) return 1;
+  for (size_t i = 0; i < v->n; i++) for (size_t j = i + 1; j < v->n; j++) if (same_obj(v->el[i], v->el[j])) return 1;
   return 0;
 }
 
@@ -257,32 +271,66 @@ static int runnable(V* a, V* b) {
 }
 
 /* ------------------------------------------------------------------------------------------------ building Cello objects */
-static var elem_type(int kind) {
-  switch (kind) { case K_INT: return Int; case K_FLT: return Float; case K_STR: return String; case K_ARR: return Array; case K_TUP: return Tuple; default: return List; }
+static var elem_type(V* e) {
+  switch (e->kind) { case K_INT: return Int; case K_FLT: return Float; case K_STR: return String; case K_ARR: return Array; case K_TUP: return Tuple;
+                     case K_PLAIN: return plain_type(e->tid); default: return List; }
+}
+
+/* allocation class of the operand objects of the current line: 0 = new_raw / alloc_raw, 1 = new_root / alloc_root, 2 = stack class */
+static int aclass = 0;
+
+/* an object with the header of a `$(T, …)` stack object (header_init(…, AllocStack)), its memory owned by the V */
+static var stack_obj(V* v, var type, const void* init, size_t size) {
+  v->stk = calloc(1, sizeof(struct Header) + size + 1);
+  var self = header_init(v->stk, type, AllocStack);
+  if (size) memcpy(self, init, size);
+  return self;
 }
 
 static var build(V* v) {
   if (v->obj) return v->obj;          /* a shared object is built once */
+  v->cls = aclass;
   switch (v->kind) {
-    case K_INT: v->obj = new_raw(Int, $I(v->i)); break;
-    case K_FLT: v->obj = new_raw(Float, $F(v->d)); break;
-    case K_STR: v->obj = new_raw(String, $S((char*)v->bytes)); break;
+    case K_INT:
+      if (aclass == 2) { struct Int x = { v->i }; v->obj = stack_obj(v, Int, &x, sizeof x); }
+      else v->obj = aclass == 1 ? (var)new_root(Int, $I(v->i)) : (var)new_raw(Int, $I(v->i));
+      break;
+    case K_FLT:
+      if (aclass == 2) { struct Float x = { v->d }; v->obj = stack_obj(v, Float, &x, sizeof x); }
+      else v->obj = aclass == 1 ? (var)new_root(Float, $F(v->d)) : (var)new_raw(Float, $F(v->d));
+      break;
+    case K_STR:
+      if (aclass == 2) { struct String x = { (char*)v->bytes }; v->obj = stack_obj(v, String, &x, sizeof x); }     /* $S(bytes) */
+      else v->obj = aclass == 1 ? (var)new_root(String, $S((char*)v->bytes)) : (var)new_raw(String, $S((char*)v->bytes));
+      break;
     case K_TYP: v->obj = v->type; break;
-    case K_PLAIN: v->obj = alloc_raw(plain_type(v->tid)); if (v->nbytes) memcpy(v->obj, v->bytes, v->nbytes); break;
+    case K_PLAIN:
+      if (aclass == 2) v->obj = stack_obj(v, plain_type(v->tid), v->bytes, v->nbytes);
+      else { v->obj = aclass == 1 ? alloc_root(plain_type(v->tid)) : alloc_raw(plain_type(v->tid)); if (v->nbytes) memcpy(v->obj, v->bytes, v->nbytes); }
+      break;
     case K_ARR: case K_LST: {
-      var et = v->n ? elem_type(v->el[0]->kind) : Int;
-      var c = v->kind == K_ARR ? (var)new_raw(Array, et) : (var)new_raw(List, et);
+      var et = v->n ? elem_type(v->el[0]) : Int;
+      var c = v->kind == K_ARR ? (aclass == 1 ? (var)new_root(Array, et) : (var)new_raw(Array, et))
+                               : (aclass == 1 ? (var)new_root(List, et) : (var)new_raw(List, et));
+      if (aclass == 2) v->cls = 0;
       for (size_t k = 0; k < v->n; k++) push(c, build(v->el[k]));     /* the container holds a copy */
       v->obj = c; break;
     }
     case K_TUP: {
-      var c = new_raw(Tuple);
+      if (aclass == 2) {                                               /* tuple(…): the item array lies outside the object */
+        v->items = calloc(v->n + 1, sizeof(var));
+        for (size_t k = 0; k < v->n; k++) v->items[k] = build(v->el[k]);
+        v->items[v->n] = Terminal;
+        struct Tuple x = { v->items }; v->obj = stack_obj(v, Tuple, &x, sizeof x); break;
+      }
+      var c = aclass == 1 ? (var)new_root(Tuple) : (var)new_raw(Tuple);
       for (size_t k = 0; k < v->n; k++) push(c, build(v->el[k]));     /* the Tuple holds the reference */
       v->obj = c; break;
     }
     case K_TREE: {
-      var kt = v->n ? elem_type(v->el[0]->kind) : Int, vt = v->n ? elem_type(v->el[1]->kind) : Int;
-      var c = new_raw(Tree, kt, vt);
+      var kt = v->n ? elem_type(v->el[0]) : Int, vt = v->n ? elem_type(v->el[1]) : Int;
+      var c = aclass == 1 ? (var)new_root(Tree, kt, vt) : (var)new_raw(Tree, kt, vt);
+      if (aclass == 2) v->cls = 0;
       for (size_t k = 0; k < v->n; k++) set(c, build(v->el[2*k]), build(v->el[2*k+1]));
       v->obj = c; break;
     }
@@ -294,9 +342,11 @@ static void v_free(V* v) {
   if (!v) return;
   if (--v->refs > 0) return;
   if (v->el) { size_t ne = nelems(v); for (size_t k = 0; k < ne; k++) v_free(v->el[k]); free(v->el); }
-  if (v->obj) {
-    if (v->kind == K_PLAIN) dealloc_raw(v->obj);
-    else if (v->kind != K_TYP) del_raw(v->obj);
+  if (v->obj && v->kind != K_TYP) {
+    if (v->cls == 2) { free(v->stk); free(v->items); }
+    else if (v->cls == 1) del_root(v->obj);          /* also for alloc_root'ed structs: dealloc_root would leave the collector's entry behind */
+    else if (v->kind == K_PLAIN) dealloc_raw(v->obj);
+    else del_raw(v->obj);
   }
   free(v->bytes); free(v);
 }
@@ -372,10 +422,40 @@ static size_t n_fail = 0;            /* oracle failures so far in this process *
    two slots (the container's copy of a Tuple references the same objects as its source) */
 static int has_dup_tuple(V* v) {
   if (v->kind == K_TUP)
-    for (size_t i = 0; i < v->n; i++) for (size_t j = i + 1; j < v->n; j++) if (v->el[i] == v->el[j]) return 1;
+    for (size_t i = 0; i < v->n; i++) for (size_t j = i + 1; j < v->n; j++) if (same_obj(v->el[i], v->el[j])) return 1;
   if (v->kind == K_TUP || v->kind == K_ARR || v->kind == K_LST) { for (size_t i = 0; i < v->n; i++) if (has_dup_tuple(v->el[i])) return 1; }
   if (v->kind == K_TREE) { for (size_t i = 0; i < v->n; i++) if (has_dup_tuple(v->el[2*i+1])) return 1; }
   return 0;
+}
+
+/* The territory of the known finding, computed from the terms and the reference order alone: is the walk of cmp(self, obj) CLEAN,
+   i.e. does it never step from a slot of a Tuple inside `obj` whose object already sits in an earlier slot of that Tuple — except
+   for the one step after which `self` has ended and `obj` has not?  The loops compare position by position until the first pair
+   that does not compare equal; only the pairs reached count.  (lean/Cello/Cmp.lean `Obj.walkClean` / `slotsClean` / `entsClean`) */
+static int walk_clean(V* obj, V* self);
+static int slots_clean(int tup, V** b, size_t nb, V** a, size_t na) {
+  for (size_t j = 0; j < nb && j < na; j++) {
+    if (!walk_clean(b[j], a[j])) return 0;
+    if (ref_cmp(a[j], b[j]) != 0) return 1;                      /* decided here: no step */
+    if (tup) {
+      int earlier = 0; for (size_t i = 0; i < j; i++) if (same_obj(b[i], b[j])) earlier = 1;
+      if (earlier && !(j + 1 == na && j + 1 < nb)) return 0;
+    }
+  }
+  return 1;
+}
+static int walk_clean(V* obj, V* self) {
+  if (is_seq(obj) && is_seq(self)) return slots_clean(obj->kind == K_TUP, obj->el, obj->n, self->el, self->n);
+  if (obj->kind == K_TREE && self->kind == K_TREE) {
+    size_t nb, na; V** eb = ref_tree_entries(obj, &nb); V** ea = ref_tree_entries(self, &na); int ok = 1;
+    for (size_t j = 0; j < nb && j < na; j++) {
+      if (ref_cmp(ea[2*j], eb[2*j]) != 0) break;
+      if (!walk_clean(eb[2*j+1], ea[2*j+1])) { ok = 0; break; }
+      if (ref_cmp(ea[2*j+1], eb[2*j+1]) != 0) break;
+    }
+    free(eb); free(ea); return ok;
+  }
+  return 1;
 }
 
 /* ---- calls into the library: directly, or in a forked child that is killed when it does not answer */
@@ -480,6 +560,7 @@ static void check_call(const char* what, const CmpRet* r, int want, int kf) {
 static void op_cmp(V* a, V* b, int both) {
   var x = build(a), y = build(b);
   int da = has_dup_tuple(a), db = has_dup_tuple(b);
+  int kab = !walk_clean(b, a), kba = !walk_clean(a, b), kaa = !walk_clean(a, a), kbb = !walk_clean(b, b);   /* known-finding territory, per call */
   int guard = da || db || n_fail > 0;       /* an identity walk over a repeated object never ends; after a failure nothing is trusted */
   CmpCall ks[5] = { { x, y, 0 }, { x, y, 1 }, { y, x, 0 }, { x, x, 0 }, { y, y, 0 } };
   CmpRet r[5]; memset(r, 0, sizeof r);
@@ -514,33 +595,34 @@ static void op_cmp(V* a, V* b, int both) {
   if (da || db) n_alias++;
   /* ---- the oracle: the content-based reference order; which objects are shared must not matter */
   int want = ref_cmp(a, b);
-  check_call(both ? "cmp(a,b)" : "lcmp: cmp(a,b)", fwd, want, db);
+  check_call(both ? "cmp(a,b)" : "lcmp: cmp(a,b)", fwd, want, kab);
   if (fwd->st == ST_OK && prd->st == ST_OK) {
     int s = sign(fwd->c); const int* p = prd->p;
     if (p[0] != (s == 0) || p[1] != (s != 0) || p[2] != (s > 0) || p[3] != (s < 0) || p[4] != (s >= 0) || p[5] != (s <= 0))
       XF("sig=cmp-preds line=%zu what=predicates eq=%d neq=%d gt=%d lt=%d ge=%d le=%d are not those of cmp's sign %d", lineno, p[0], p[1], p[2], p[3], p[4], p[5], s);
-  } else if (fwd->st == ST_OK) check_call("a predicate of (a,b)", prd, 0, db);
+  } else if (fwd->st == ST_OK) check_call("a predicate of (a,b)", prd, 0, kab);
   if (!both) return;
-  check_call("cmp(b,a)", rev, -want, da);
+  check_call("cmp(b,a)", rev, -want, kba);
   if (fwd->st == ST_OK && rev->st == ST_OK && sign(rev->c) != -sign(fwd->c)) {
-    if (da || db) { n_kf++; XF("sig=" KF_SIG " line=%zu what=sign cmp(a,b)=%d but sign cmp(b,a)=%d (an operand holds a Tuple with one object in two slots)", lineno, sign(fwd->c), sign(rev->c)); }
+    if (kab || kba) { n_kf++; XF("sig=" KF_SIG " line=%zu what=sign cmp(a,b)=%d but sign cmp(b,a)=%d (an operand holds a Tuple with one object in two slots)", lineno, sign(fwd->c), sign(rev->c)); }
     else XF("sig=cmp-antisym line=%zu what=sign cmp(a,b)=%d but sign cmp(b,a)=%d", lineno, sign(fwd->c), sign(rev->c));
   }
   const CmpRet* aa = &r[3]; const CmpRet* bb = &r[4];
   if (aa->st != ST_OK || aa->c != 0) {
-    if (da) { n_kf++; XF("sig=" KF_SIG " line=%zu what=cmp(a,a)=%s for a Tuple with one object in two slots", lineno, show_sign(aa, b1)); }
+    if (kaa) { n_kf++; XF("sig=" KF_SIG " line=%zu what=cmp(a,a)=%s for a Tuple with one object in two slots", lineno, show_sign(aa, b1)); }
     else XF("sig=cmp-refl line=%zu what=cmp(a,a)=%s", lineno, show_sign(aa, b1));
   }
   if (bb->st != ST_OK || bb->c != 0) {
-    if (db) { n_kf++; XF("sig=" KF_SIG " line=%zu what=cmp(b,b)=%s for a Tuple with one object in two slots", lineno, show_sign(bb, b1)); }
+    if (kbb) { n_kf++; XF("sig=" KF_SIG " line=%zu what=cmp(b,b)=%s for a Tuple with one object in two slots", lineno, show_sign(bb, b1)); }
     else XF("sig=cmp-refl line=%zu what=cmp(b,b)=%s", lineno, show_sign(bb, b1));
   }
 }
 
 static void op_tri(V* a, V* b, V* c) {
   var x = build(a), y = build(b), z = build(c);
-  int kf = has_dup_tuple(a) || has_dup_tuple(b) || has_dup_tuple(c);
-  int guard = kf || n_fail > 0;
+  int dup = has_dup_tuple(a) || has_dup_tuple(b) || has_dup_tuple(c);
+  int kf = !walk_clean(b, a) || !walk_clean(a, b) || !walk_clean(c, b) || !walk_clean(b, c) || !walk_clean(c, a) || !walk_clean(a, c);
+  int guard = dup || n_fail > 0;
   CmpCall ks[6] = { {x,y,0}, {y,x,0}, {y,z,0}, {z,y,0}, {x,z,0}, {z,x,0} };
   CmpRet rr[6]; int r[6]; const char* e = NULL; int odd = 0;
   run_calls(ks, rr, 6, guard);
@@ -581,7 +663,7 @@ static void oappend(const char* fmt, ...) {
 }
 
 static void op_keys(V** vs, size_t n) {
-  var kt = elem_type(vs[0]->kind);
+  var kt = elem_type(vs[0]);
   var tree = new_raw(Tree, kt, Int), table = new_raw(Table, kt, Int);
   var exc = NULL;
   for (size_t k = 0; k < n && !exc; k++) {
@@ -635,7 +717,7 @@ static void show_scalar(var item, int kind) {
 
 static void op_sort(V** vs, size_t n) {
   int kind = vs[0]->kind;
-  var arr = new_raw(Array, elem_type(kind));
+  var arr = new_raw(Array, elem_type(vs[0]));
   for (size_t k = 0; k < n; k++) push(arr, build(vs[k]));
   var exc; V_TRY(exc, sort(arr));
   if (exc) { O("sort exc=%s", v_exc_name(exc)); XF("sig=cmp-raises line=%zu what=sort raised %s", lineno, v_exc_name(exc)); del_raw(arr); return; }
@@ -686,7 +768,12 @@ int main(int argc, char** argv) {
     size_t cap = strlen(l) / 2 + 2; toks = malloc(cap * sizeof(char*)); ntok = 0; tpos = 0;
     for (char* p = strtok(l, " "); p; p = strtok(NULL, " ")) toks[ntok++] = p;
     V* vs[MAXCOUNT + 1]; size_t nv = 0; int ok = ntok >= 1;
-    const char* op = ntok ? toks[0] : ""; tpos = 1;
+    char* op = ntok ? toks[0] : (char*)""; tpos = 1;
+    aclass = 0;
+    { size_t ol = strlen(op);
+      if (ol > 2 && op[ol-2] == '.' && (op[ol-1] == 'n' || op[ol-1] == 's')
+          && (strncmp(op, "cmp.", 4) == 0 || strncmp(op, "lcmp.", 5) == 0 || strncmp(op, "tri.", 4) == 0)
+          && (ol == 5 || ol == 6)) { aclass = op[ol-1] == 'n' ? 1 : 2; op[ol-2] = 0; } }
     while (ok && tpos < ntok) { if (nv >= MAXCOUNT) { ok = 0; break; } V* v = parse_val(); if (!v) { ok = 0; break; } vs[nv++] = v; }
     nops++;
     if (ok && strcmp(op, "cmp") == 0 && nv == 2 && runnable(vs[0], vs[1])) op_cmp(vs[0], vs[1], 1);
